@@ -490,10 +490,11 @@ Checks(pid, name, ok) ==
 \* with a detail field identifying the input class (used by known findings)
 ChecksD(pid, name, d, ok) == IF ok THEN {} ELSE { [ p |-> pid, inv |-> name, l |-> l, t |-> Line.t, d |-> d ] }
 
-\* at most 6 records per invariant (a persistent failure must not crowd out
+\* at most 6 records per invariant and input class (a persistent failure must not crowd out
 \* the violations of other invariants)
+CapKey(r) == << r.inv, IF "d" \in DOMAIN r THEN r.d ELSE "" >>
 AddCapped(S, T) ==
-    S \cup { r \in T : Cardinality({ q \in S : q.inv = r.inv }) < 6 }
+    S \cup { r \in T : Cardinality({ q \in S : CapKey(q) = CapKey(r) }) < 6 }
 
 -----------------------------------------------------------------------------
 
@@ -797,6 +798,10 @@ BatchExplained(x, o) ==
           f.r \in DOMAIN hb.R /\ f.e \in DOMAIN hb.R[f.r].ev /\ hb.R[f.r].ev[f.e].f = f.f
     /\ ConfBlocksLite(hb.out, o.blocks)
 
+\* the reference instance (per-event insertion) of this trace was reproduced by the
+\* specification: no Conf_ mismatch recorded in this trace
+RefConforms == ~\E r \in drift : r.t = Line.t
+
 TraceInstance ==
     /\ Line.a = "Instance"
     /\ \E V \in { IF Line.o.err # "" THEN {}      \* unsupported configuration (an error, not a result)
@@ -840,7 +845,7 @@ TraceInstance ==
                          \* dependence, anything else is not explained by it
                          IF Inv_C03_SameOutput(ref, OutRec(Line.o)) THEN {}
                          ELSE ChecksD("C03", "Inv_C03_SameOutput",
-                                      IF "ids" \in DOMAIN Line.x /\ BatchExplained(Line.x, Line.o)
+                                      IF "ids" \in DOMAIN Line.x /\ RefConforms /\ BatchExplained(Line.x, Line.o)
                                       THEN "batched-consensus-passes/first-descendant-walk"
                                       ELSE "batched-consensus-passes/unexplained", FALSE)
                     ELSE ChecksD("C03", "Inv_C03_SameOutput", Line.x.kind,
